@@ -82,6 +82,7 @@ type unit struct {
 	indirect  bool // calls a function-typed struct field (w.job)
 	cbs       []cbCall
 	locks     int
+	rlocks    int // how many of them are RLock() (shared mode)
 	deferUnl  bool
 }
 
@@ -193,6 +194,9 @@ func (w *walker) call(c *ast.CallExpr) {
 		case "Lock", "RLock":
 			w.st.held = true
 			w.u.locks++
+			if m == "RLock" {
+				w.u.rlocks++
+			}
 		case "Unlock", "RUnlock":
 			w.st.held = false
 		default:
@@ -684,6 +688,20 @@ func main() {
 		}
 		first = false
 		sb.WriteString(fmt.Sprintf("\n  (%s, %d, %s)", q(u.name), u.locks, b(u.deferUnl)))
+	}
+	sb.WriteString("]\n\n")
+	sb.WriteString("/-- methods that take a.mutex in SHARED mode (RLock): they exclude writers, not each other -/\n")
+	sb.WriteString("def aggSharedLockUsers : List String := [")
+	first = true
+	for _, u := range units {
+		if u.rlocks == 0 {
+			continue
+		}
+		if !first {
+			sb.WriteString(", ")
+		}
+		first = false
+		sb.WriteString(q(u.name))
 	}
 	sb.WriteString("]\n\n")
 	sb.WriteString("/-- (method, function-typed parameter it invokes, a.mutex held around the invocation) -/\n")
